@@ -1005,6 +1005,10 @@ impl Transaction {
                 error!("ERROR: SPV transaction contains invalid hash");
                 return false;
             }
+            if !self.from.is_empty() || !self.to.is_empty() {
+                error!("ERROR: SPV placeholder transaction carries slips");
+                return false;
+            }
 
             return true;
         }
